@@ -14,7 +14,7 @@ P = json.loads(os.environ.get('XH_PARAMS', '{}') or '{}')
 N = int(P.get('n', 4))
 KIND = P.get('kind', 'SignatureArray')
 R = N + 2
-KS = KmerSpec(9, 'AT')            # index dtype u4
+KS = KmerSpec(5, 'AT')            # index dtype u2, deliberately different from the u4 the signatures are stored in
 SIGS = [np.arange(j * 10, j * 10 + (j % 3), dtype='u4') for j in range(N)]      # includes empty signatures
 NONE = R + 1                      # sentinel for "None" in slice components
 
